@@ -30,8 +30,8 @@ if [ -f "$OUT/demo.diff" ]; then
   ( cd "$S.clean" && git apply "$OUT/demo.diff" && eval "$DCMD" ) > "$OUT/demo_without_change.log" 2>&1; DEMO_WITHOUT=$?
   ( cd "$S" && git apply -R "$OUT/demo.diff" )
 elif [ -f "$OUT/demo.sh" ]; then
-  ( cd "$S" && bash "$OUT/demo.sh" ) > "$OUT/demo_with_change.log" 2>&1; DEMO_WITH=$?
-  ( cd "$S.clean" && bash "$OUT/demo.sh" ) > "$OUT/demo_without_change.log" 2>&1; DEMO_WITHOUT=$?
+  ( cd "$S" && WT="$S" REPO="$S" bash "$OUT/demo.sh" "$S" ) > "$OUT/demo_with_change.log" 2>&1; DEMO_WITH=$?
+  ( cd "$S.clean" && WT="$S.clean" REPO="$S.clean" bash "$OUT/demo.sh" "$S.clean" ) > "$OUT/demo_without_change.log" 2>&1; DEMO_WITHOUT=$?
 fi
 echo "demo with change rc=$DEMO_WITH (expected != 0); without change rc=$DEMO_WITHOUT (expected 0)" >> "$LOG"
 # 3. our checks against the changed tree
